@@ -11,13 +11,14 @@ demodir=$wt
 if grep -qi "pkg/" $src/notes.txt 2>/dev/null && head -1 $src/demo_test.go | grep -qv "package klevdb"; then
   pk=$(head -1 $src/demo_test.go | awk '{print $2}'); demodir=$wt/pkg/$pk
 fi
+names=$(grep -o 'func Test[A-Za-z0-9_]*' $src/demo_test.go | awk '{print $2}' | paste -sd'|')
 cp $src/demo_test.go $demodir/zz_seed_demo_test.go
-( cd $wt && go test -vet=off -count=1 -run 'Demo|Seed|Test' ./$(realpath --relative-to=$wt $demodir)/ >/tmp/confirm-$id.clean.log 2>&1 ); clean=$?
+( cd $wt && go test -vet=off -count=1 -run "^($names)\$" ./$(realpath --relative-to=$wt $demodir)/ >/tmp/confirm-$id.clean.log 2>&1 ); clean=$?
 rm $demodir/zz_seed_demo_test.go
 git -C $wt apply $src/patch.diff || { echo "patch does not apply"; exit 2; }
 ( cd $wt && go build ./... && go test -vet=off -count=1 ./... >/tmp/confirm-$id.suite.log 2>&1 ); suite=$?
 cp $src/demo_test.go $demodir/zz_seed_demo_test.go
-( cd $wt && go test -vet=off -count=1 ./$(realpath --relative-to=$wt $demodir)/ >/tmp/confirm-$id.demo.log 2>&1 ); demo=$?
+( cd $wt && go test -vet=off -count=1 -run "^($names)\$" ./$(realpath --relative-to=$wt $demodir)/ >/tmp/confirm-$id.demo.log 2>&1 ); demo=$?
 git -C /repo worktree remove --force $wt
 echo "seed $id: demo-on-clean rc=$clean (want 0)  suite-with-patch rc=$suite (want 0)  demo-with-patch rc=$demo (want !=0)"
 if [ $clean -eq 0 ] && [ $suite -eq 0 ] && [ $demo -ne 0 ]; then
